@@ -237,3 +237,54 @@ def frag_tokens(schema, frag):
     for c in frag.content:
         node_tokens(schema, c.to_json(), out)
     return out
+
+
+# ---------------------------------------------------------------------------------------------
+# the schema *spec* (the dict handed to `Schema()`), for the model of schema construction (lean/PM/SchemaCompile.lean)
+def dump_dfa(start, nid):
+    """the automaton reachable from ContentMatch `start`, states numbered in breadth-first discovery order (as
+    SchemaInfo.dump_dfa), node types numbered by `nid`"""
+    states = [start]
+    index = {id(start): 0}
+    i = 0
+    while i < len(states):
+        st = states[i]
+        for e in st.next:
+            if id(e.next) not in index:
+                index[id(e.next)] = len(states)
+                states.append(e.next)
+        i += 1
+    return [[bool(st.valid_end), [[nid[e.type.name], index[id(e.next)]] for e in st.next]] for st in states]
+
+
+def spec_attrs(attrs):
+    return [[n, jval(o["default"]) if "default" in o else None] for n, o in (attrs or {}).items()]
+
+
+def spec_dump(spec):
+    """protocol encoding of a schema spec: the two dicts in insertion order, read key by key from the spec itself (nothing
+    of a compiled Schema object is used)"""
+    nodes = []
+    for name, s in spec["nodes"].items():
+        nodes.append({
+            "name": name,
+            "content": s.get("content", ""),
+            "group": s["group"] if "group" in s else None,
+            "marks": s.get("marks"),
+            "inline": bool(s.get("inline")),
+            "atom": bool(s.get("atom")),
+            "isolating": bool(s.get("isolating")),
+            "defining": bool(s.get("defining")),
+            "code": bool(s.get("code")),
+            "attrs": spec_attrs(s.get("attrs")),
+        })
+    marks = []
+    for name, s in (spec.get("marks") or {}).items():
+        marks.append({
+            "name": name,
+            "excludes": s.get("excludes"),
+            "group": s.get("group"),
+            "inclusive": s.get("inclusive") is not False,
+            "attrs": spec_attrs(s.get("attrs")),
+        })
+    return {"nodes": nodes, "marks": marks, "topNode": spec.get("topNode")}
